@@ -2923,6 +2923,13 @@ def rule_leaf_values(repo):
     return rule_range(repo)
 
 
+def rule_leaf_width_tables(repo):
+    """a struct whose leaves sum to any width the Bits constructor accepts must pack: the leaf type's mask tables cover that whole
+    range.  Shared with C04 (R-C04-tables)."""
+    from rules.c04 import rule_tables
+    return rule_tables(repo)
+
+
 def rule_leaf_effects(repo):
     """the struct's staged (<<=) and visible (@=) values are kept apart leaf by leaf only if the leaf type keeps them apart: a
     blocking write must not touch the pending value and vice versa.  Shared with C07 (R-C07-effects)."""
@@ -2931,7 +2938,7 @@ def rule_leaf_effects(repo):
 
 
 RULES = [rule_traversal, rule_leaf, rule_width, rule_mirror, rule_eqhash, rule_init, rule_wiring, rule_admit, rule_grid, rule_fresh, rule_concat, rule_cache, rule_leaf_values,
-         rule_leaf_effects]
+         rule_leaf_effects, rule_leaf_width_tables]
 THOROUGH_RULES = [rule_admit_deep]
 
 
